@@ -9,6 +9,8 @@ import (
 	"log/slog"
 
 	"github.com/oxia-db/oxia/proto"
+	"github.com/oxia-db/oxia/server/kv"
+	"github.com/oxia-db/oxia/server/wal"
 )
 
 // VerifInternalRpc is the internal (coordinator / replication) RPC surface of a storage node,
@@ -29,4 +31,92 @@ func VerifNewInternalRpc(shardsDirector ShardsDirector) VerifInternalRpc {
 		shardsDirector: shardsDirector,
 		log:            slog.With(slog.String("component", "internal-rpc-server")),
 	}
+}
+
+// VerifNodeDump is a projection of one node's state for one shard.
+type VerifNodeDump struct {
+	Ctrl   string // "none", "leader", "follower"
+	Term   int64
+	Status string
+
+	WalFirst        int64
+	WalLastAppended int64
+	WalLastSynced   int64
+	Wal             []wal.VerifEntry
+
+	DbCommit int64
+	DbTerm   int64
+	Records  map[string]*proto.GetResponse // the requested keys that exist
+
+	// leader only (-2 when there is no tracker)
+	Head      int64
+	Commit    int64
+	Followers map[string][2]int64 // follower -> {ackOffset, lastPushed}
+	// follower only
+	LastAppended int64
+	AdvCommit    int64
+}
+
+func verifDumpStorage(d *VerifNodeDump, w wal.Wal, db kv.DB, keys []string) error {
+	var err error
+	if w != nil {
+		if d.WalFirst, d.WalLastAppended, d.WalLastSynced, d.Wal, err = wal.VerifReadAll(w); err != nil {
+			return err
+		}
+	}
+	if db != nil {
+		if d.DbCommit, err = db.ReadCommitOffset(); err != nil {
+			return err
+		}
+		if d.DbTerm, _, err = db.ReadTerm(); err != nil {
+			return err
+		}
+		d.Records = map[string]*proto.GetResponse{}
+		for _, k := range keys {
+			r, err := db.Get(&proto.GetRequest{Key: k, IncludeValue: true})
+			if err != nil {
+				return err
+			}
+			if r.Status == proto.Status_OK {
+				d.Records[k] = r
+			}
+		}
+	}
+	return nil
+}
+
+// VerifDump projects the state of the controller the director currently holds for the shard.
+// It is meant to be called at quiescent points; fields of a controller whose lock is held by a
+// long-running handler (BecomeLeader waiting for the quorum) are read without the lock.
+func VerifDump(director ShardsDirector, shard int64, keys []string) (*VerifNodeDump, error) {
+	s := director.(*shardsDirector)
+	s.RLock()
+	defer s.RUnlock()
+	d := &VerifNodeDump{Ctrl: "none", Term: -1, Status: "NOT_MEMBER", Head: -2, Commit: -2, LastAppended: -2, AdvCommit: -2,
+		WalFirst: -1, WalLastAppended: -1, WalLastSynced: -1, DbCommit: -1, DbTerm: -1}
+	if l, ok := s.leaders[shard]; ok {
+		lc := l.(*leaderController)
+		if lc.TryRLock() {
+			defer lc.RUnlock()
+		}
+		d.Ctrl, d.Term, d.Status = "leader", lc.term, lc.status.String()
+		if q := lc.quorumAckTracker; q != nil {
+			d.Head, d.Commit = q.HeadOffset(), q.CommitOffset()
+		}
+		d.Followers = map[string][2]int64{}
+		for name, c := range lc.followers {
+			d.Followers[name] = [2]int64{c.AckOffset(), c.LastPushed()}
+		}
+		return d, verifDumpStorage(d, lc.wal, lc.db, keys)
+	}
+	if f, ok := s.followers[shard]; ok {
+		fc := f.(*followerController)
+		if fc.TryLock() {
+			defer fc.Unlock()
+		}
+		d.Ctrl, d.Term, d.Status = "follower", fc.term, fc.status.String()
+		d.LastAppended, d.AdvCommit = fc.lastAppendedOffset, fc.advertisedCommitOffset.Load()
+		return d, verifDumpStorage(d, fc.wal, fc.db, keys)
+	}
+	return d, nil
 }
